@@ -23,6 +23,9 @@ def sha(s):
     return hashlib.sha256(s).hexdigest()[:16]
 
 
+PARSE_BUDGET = 1_500_000
+CLOCK = None
+
 DEFAULT_PARSERS = [
     {"name": "glr", "kind": "glr"},
     {"name": "lr", "kind": "lr", "opts": {"build_tree": True}},
@@ -128,6 +131,8 @@ def build_item(item, tmpdir, full=False):
 
         for pc in item.get("parsers") or DEFAULT_PARSERS:
             key = pc["name"]
+            if item.get("cyclic") and pc["kind"] == "lr":
+                continue  # the LR driver does not terminate on cyclic grammars
             try:
                 cls = GLRParser if pc["kind"] == "glr" else Parser
                 # a precomputed table keeps the table cache out of this check
@@ -157,8 +162,23 @@ def build_item(item, tmpdir, full=False):
                 continue
             res = []
             for x in item["inputs"]:
-                o = parse_outcome(p, x, ntrees=50, with_errors=bool(pc.get("opts", {}).get(
-                    "error_recovery")))
+                # deterministic step budget per parse: the LR driver loops forever
+                # (and eats memory) on cyclic grammars and on some tables whose
+                # conflicts were resolved by prefer_shifts
+                guarded = pc["kind"] == "lr"  # GLR terminates; keep the clock off there
+                CLOCK.reset(PARSE_BUDGET)
+                if guarded:
+                    CLOCK.start(restart=False)
+                try:
+                    o = parse_outcome(p, x, ntrees=50, with_errors=bool(pc.get("opts", {}).get(
+                        "error_recovery")))
+                except core.StepBudgetExceeded:
+                    o = {"exc": "StepBudgetExceeded"}
+                finally:
+                    if guarded:
+                        CLOCK.stop()
+                if CLOCK.exceeded:
+                    o = {"exc": "StepBudgetExceeded"}
                 res.append(o if full else sha(json.dumps(o, sort_keys=True)))
             out[key] = res
         # forest[i] must mean the same tree whether the table was computed here or
@@ -183,6 +203,14 @@ def main():
     with open(sys.argv[1]) as f:
         work = json.load(f)
     core.import_parglare()
+    global CLOCK
+    CLOCK = core.StepClock()
+    try:  # a runaway item must hit MemoryError, not the machine's OOM killer
+        import resource
+
+        resource.setrlimit(resource.RLIMIT_AS, (8 * 2**30, 8 * 2**30))
+    except Exception:
+        pass
     tmpdir = work["tmpdir"]
     os.makedirs(tmpdir, exist_ok=True)
     items = work["items"]
